@@ -156,11 +156,12 @@ def run(idx, rep, tier):
         f = gs[-1]
         num = f.params[0]
         table = {}
-        for n in df.body_nodes(f.node):
-            if isinstance(n, ast.If) and isinstance(n.test, ast.Compare) and isinstance(n.test.comparators[0], ast.Constant):
-                which = n.test.comparators[0].value
-                for c in [x for st in n.body for x in ast.walk(st) if isinstance(x, ast.Call) and nospace(x.func) == "slice"]:
-                    table[which] = [nospace(a) for a in c.args]
+        for c in [x for x in df.body_nodes(f.node) if isinstance(x, ast.Call) and nospace(x.func) == "slice"]:
+            # the request this slice is built for: the enclosing condition `which == '<X>'` that holds here (either branch polarity)
+            for t, pol in df.branch_conditions(c, f.node):
+                if pol and isinstance(t, ast.Compare) and len(t.ops) == 1 and isinstance(t.ops[0], ast.Eq) and isinstance(t.comparators[0], ast.Constant) and isinstance(t.comparators[0].value, str):
+                    table[t.comparators[0].value] = [nospace(a) for a in c.args]
+                    break
         asg = df.assignments(f.node)
         lm = table.get("LM", [])
         lm0 = lm[0] if lm else ""
